@@ -1,7 +1,7 @@
 #!/bin/sh
-# tools/seed_verify.sh <PROP> <k>: confirm a seeded change in its scratch worktree /tmp/mut_<PROP>:
+# tools/seed_verify.sh <PROP> <k> [worktree-prefix out-prefix stored-index]: confirm a seeded change in its scratch worktree /tmp/mut_<PROP>:
 # patch applies, suite unchanged, demo exits 1 with the patch and 0 without; then store it under seeded/<PROP>-<k>/
-P=$1; K=$2; WT=/tmp/mut_$P; OUT=/tmp/mutout_$P
+P=$1; K=$2; WT=/tmp/${3:-mut}_$P; OUT=/tmp/${4:-mutout}_$P; ID=${5:-$K}
 cd $WT || exit 2
 git checkout -q -- . ; git clean -fdq -- sageopt
 /venv/bin/python $OUT/demo$K.py > /tmp/seedv_${P}_$K.clean.txt 2>&1; RC0=$?
@@ -12,7 +12,7 @@ git checkout -q -- . ; git clean -fdq -- sageopt
 echo "$P-$K: demo clean rc=$RC0 mutated rc=$RC1 suite: $SUITE"
 case "$SUITE" in *"1 failed, 125 passed, 19 skipped"*) OKS=1;; *) OKS=0;; esac
 if [ "$RC0" = 0 ] && [ "$RC1" = 1 ] && [ "$OKS" = 1 ]; then
-  D=/verif/seeded/$P-$K; mkdir -p $D
+  D=/verif/seeded/$P-$ID; mkdir -p $D
   cp $OUT/patch$K.diff $D/patch.diff; cp $OUT/demo$K.py $D/demo.py; cp $OUT/meta$K.json $D/meta.json
   tail -5 /tmp/seedv_${P}_$K.mut.txt > $D/demo_output_mutated.txt
   echo "$P-$K: CONFIRMED -> $D"
